@@ -485,7 +485,7 @@ func freshnessUnit() harness.Unit {
 var Prop = &harness.Prop{
 	ID:          "C07",
 	Level:       "fault_enumeration",
-	Rule:        "a record-aware man in the middle between two real library endpoints (GMSSL, both ECC suites) applies one fault at one protected record of a session of Finished + 6 application records (payload sizes 1,15,16,17,100,0) + close_notify per direction; catalogue: every bit of header and body of each record (quick: stride over one suite/direction, see bounds), truncation and extension by 1..17 bytes with consistent and with stale length, record type set to each other type, 5 record versions, length +-1, drop, duplicate, swap with next, replay of the previous record, a record of the other direction, the same-index record of another connection (replace and inject). Oracle: what the receiver's application read is a prefix of what was written, contains nothing from the affected record on, and the receiver's handshake/Read ends with a non-EOF error; no panic, no hang. Freshness: explicit CBC IVs pairwise distinct and unchained, explicit GCM nonces 0,1,2,... Keyed peer (gmref, an independent GM/T 0024 implementation holding the session keys, in each role and suite): after an honest handshake it sends records it protects itself - every CBC padding length 0..255 as a valid encoding (must be delivered), every byte of the padding and the length byte corrupted under a correct MAC for chosen padding lengths (thorough: all), correct protection under sequence numbers seq+1/+2/-1/+2^32, MAC computed for another content type, duplicate, reflection of the library's own record, unprotected record, header version changed after protection, truncation/extension, payloads of 0/16384/16385/18500 bytes, sender-chosen explicit IV/nonce - at stream positions 0 and 2; bad padding and bad MAC must be answered with the same fatal alert. In the receive direction gmref authenticates every record of a stream of 600+ payload sizes (0..600, powers of two +-1, 16383..16385, 20000..50000) written by the library and checks explicit IV/nonce freshness and record sizes. A case is distinct/non-trivial per (suite, direction, record, fault). Added: fresh connections writing (a, b, small) over 10 size classes with IV/nonce uniqueness under the reference; after an honest renegotiation one record protected for the wrong epoch (6 ways); each side's complete byte stream of one full and two resumed connections replayed to a fresh connection of the other side's Config (GMSSL-only, auto-switch, TLS 1.0/1.2): never completion, never data. Transport faults through a net.Conn wrapper at the library endpoint: the j-th application-data write (j = 1..12) fails after none/half/all of its bytes and the application closes - the keyed reference peer must authenticate every record incl. close_notify when all bytes went out, delivered bytes are a prefix, no nonce repeats; the k-th transport read (k = 1..60) is short and the next one times out while the application retries - the stream must continue exactly. Short protected records (types 21/22/23, bodies 0..65 bytes) on 20 TLS suites and both GMSSL suites.",
+	Rule:        "a record-aware man in the middle between two real library endpoints (GMSSL, both ECC suites) applies one fault at one protected record of a session of Finished + 6 application records (payload sizes 1,15,16,17,100,0) + close_notify per direction; catalogue: every bit of header and body of each record (quick: stride over one suite/direction, see bounds), truncation and extension by 1..17 bytes with consistent and with stale length, record type set to each other type, 5 record versions, length +-1, drop, duplicate, swap with next, replay of the previous record, a record of the other direction, the same-index record of another connection (replace and inject). Oracle: what the receiver's application read is a prefix of what was written, contains nothing from the affected record on, and the receiver's handshake/Read ends with a non-EOF error; no panic, no hang. Freshness: explicit CBC IVs pairwise distinct and unchained, explicit GCM nonces 0,1,2,... Keyed peer (gmref, an independent GM/T 0024 implementation holding the session keys, in each role and suite): after an honest handshake it sends records it protects itself - every CBC padding length 0..255 as a valid encoding (must be delivered), every byte of the padding and the length byte corrupted under a correct MAC for chosen padding lengths (thorough: all), correct protection under sequence numbers seq+1/+2/-1/+2^32, MAC computed for another content type, duplicate, reflection of the library's own record, unprotected record, header version changed after protection, truncation/extension, payloads of 0/16384/16385/18500 bytes, sender-chosen explicit IV/nonce - at stream positions 0 and 2; bad padding and bad MAC must be answered with the same fatal alert. In the receive direction gmref authenticates every record of a stream of 600+ payload sizes (0..600, powers of two +-1, 16383..16385, 20000..50000) written by the library and checks explicit IV/nonce freshness and record sizes. A case is distinct/non-trivial per (suite, direction, record, fault). Added: fresh connections writing (a, b, small) over 10 size classes with IV/nonce uniqueness under the reference; after an honest renegotiation one record protected for the wrong epoch (6 ways); each side's complete byte stream of one full and two resumed connections replayed to a fresh connection of the other side's Config (GMSSL-only, auto-switch, TLS 1.0/1.2): never completion, never data. Transport faults through a net.Conn wrapper at the library endpoint: the j-th application-data write (j = 1..12) fails after none/half/all of its bytes and the application closes - the keyed reference peer must authenticate every record incl. close_notify when all bytes went out, delivered bytes are a prefix, no nonce repeats; the k-th transport read (k = 1..60) is short and the next one times out while the application retries - the stream must continue exactly. Short protected records (types 21/22/23, bodies 0..65 bytes) on 20 TLS suites and both GMSSL suites. Config.Rand returning one byte per Read (CBC IVs distinct and consecutive IVs differing in at least 8 positions); protected warning alerts in the data phase followed by data.",
 	Assumptions: []string{"sequence-number wrap (2^64 records) is unreachable and not explored", "in the man-in-the-middle units both endpoints are the library; the keyed-peer units pair the library with the independent reference implementation gmref in each role, so sender/receiver defects that cancel out between two library endpoints do not cancel there"},
 	Bounds: func(tier string) string {
 		if tier == "thorough" {
